@@ -120,7 +120,7 @@ Print Assumptions C17_upfront_reasons.
    times price"; the code credits the refund to the sender and the pool but
    reports the gas used before the refund (finding refund-not-in-gas-used). *)
 Theorem C17_accounting_partial : forall P ver run st gp m g f st' gp',
-  run_le run -> stake_sane st m ->
+  run_le run -> stake_sane P st m ->
   (is_staking P (m_to m) = true -> g_v4 P <= ver) ->
   apply_message P ver run st gp m = (Applied g f, st', gp') ->
   nonce st (m_from m) = m_nonce m /\
@@ -141,7 +141,7 @@ Definition C17_full : Prop := charge_exact.
 (* ... holds outside the finding class (no refund counter: every staking
    message, and every call/creation whose code earns no refund) ... *)
 Theorem C17_accounting_holds_outside : forall P ver run st gp m g f st' gp',
-  run_le run -> stake_sane st m ->
+  run_le run -> stake_sane P st m ->
   (is_staking P (m_to m) = true -> g_v4 P <= ver) ->
   no_refund run \/ is_staking P (m_to m) = true ->
   apply_message P ver run st gp m = (Applied g f, st', gp') ->
@@ -270,12 +270,12 @@ Example C17_nonvacuous_apply :
   fst (fst (apply_message ex_P 5 (run_code ex_P) ex_st 8000000 (ex_m 4 30000 (Some 9) 50))) = Rejected ENonceHigh /\
   fst (fst (apply_message ex_P 5 (run_code ex_P) ex_st 8000000 (ex_m 3 300000000 (Some 9) 50))) = Rejected EInsufGas /\
   fst (fst (apply_message ex_P 5 (run_code ex_P) ex_st 20000 (ex_m 3 30000 (Some 9) 50))) = Rejected EGasLimitReached /\
-  stake_sane ex_st (ex_m 3 2000000 (Some (g_staking ex_P)) 0) /\
+  stake_sane ex_P ex_st (ex_m 3 2000000 (Some (g_staking ex_P)) 0) /\
   run_le (run_code ex_P).
 Proof.
   do 8 (split; [vm_compute; reflexivity|]).
   split.
-  - intros d Hd. injection Hd as <-. vm_compute. discriminate.
+  - intros _ d Hd. injection Hd as <-. vm_compute. discriminate.
   - apply run_code_le.
 Qed.
 Print Assumptions C17_nonvacuous_apply.
